@@ -433,6 +433,11 @@ func report(pd *PropDef, tier string, agg *aggregate, nItems int, wall time.Dura
 			cov["notes"] = dedupe(agg.enum.Notes)
 		}
 	}
+	if agg.stats.Executions > 0 && agg.enum.Evaluations > 0 {
+		// a model-checking property with an additional enumerated part (C10: real-kill cross-validation)
+		cov["enumerated_fault_points"] = agg.enum.Evaluations
+		cov["enumerated_distinct_outcomes"] = agg.enum.Distinct
+	}
 	if agg.stats.Executions > 0 {
 		cov["states"] = agg.stats.States
 		cov["transitions"] = agg.stats.Transitions
